@@ -23,7 +23,7 @@ def run(ctx):
     # JIT vs emulation on float programs over n / alignment / 2-D / chains (levels L1 + L3 float + corpus float functions)
     res2 = vlib.Results()
     nsh2 = 48
-    levels = "L1,L4"
+    levels = "L1,L4,L6"
     args = [["--levels", levels, "--tier", tier, "--targets", "avx,sse", "--classes", "float", "--corpus", c01.corpus_arg(),
              "--shard", i, "--nshards", nsh2, "--deadline", int(deadline)] for i in range(nsh2)]
     vlib.run_shards(xprog, args, env, timeout=deadline * 1.3 + 60, res=res2, label="xprog-float")
